@@ -13,10 +13,19 @@ Record case := mkCase {
   i_q_list : list bool;                  (* impl: query(list(x)) *)
   i_q_map : list bool;                   (* impl: query(dict) *)
   i_q_int : list nat;                    (* impl: query(x, dtype=int) flattened *)
+  c_edited : bool;                       (* the container was edited in place before these observations: its array may be
+                                            padded wider than encode (c_fs) pads, and is compared up to padding *)
 }.
 
 Definition eqb_cell := eqb_pair Z.eqb Z.eqb.
 Definition eqb_data := eqb_list (eqb_list (eqb_list eqb_cell)).
+
+(* the stored array with the padding removed: cells (-1, -1) and conjunctions made of padding only *)
+Definition strip (d : list (list (list (Z * Z)))) : list (list (list (Z * Z))) :=
+  map (fun row => filter (fun cj => negb (Nat.eqb (length cj) 0))
+                         (map (filter (fun cell : Z * Z => negb (Z.eqb (fst cell) (-1)))) row)) d.
+Definition same_data (c : case) (m : list (list (list (Z * Z)))) : bool :=
+  if c_edited c then eqb_data (strip (i_data c)) (strip m) else eqb_data (i_data c) m.
 
 Definition check (c : case) : bool * bool * bool :=
   let p := encode (c_fs c) in
@@ -27,7 +36,7 @@ Definition check (c : case) : bool * bool * bool :=
   let s_arr := map (eval_dnf (c_x c)) (c_fs c) in
   let s_map := map (eval_dnf xm) (c_fs c) in
   let s_int := argwhere s_arr in
-  ( eqb_data (i_data c) (prow p) && eqb_bools (i_q_arr c) m_arr && eqb_bools (i_q_list c) m_arr
+  ( same_data c (prow p) && eqb_bools (i_q_arr c) m_arr && eqb_bools (i_q_list c) m_arr
       && eqb_bools (i_q_map c) m_map && eqb_nats (i_q_int c) m_int,
     eqb_bools (i_q_arr c) s_arr && eqb_bools (i_q_list c) s_arr && eqb_bools (i_q_map c) s_map
       && eqb_nats (i_q_int c) s_int,
